@@ -2,16 +2,11 @@ package ana
 
 import (
 	"fmt"
-	"go/token"
-	"go/types"
 	"os"
 	"os/exec"
 	"regexp"
 	"sort"
-	"strconv"
 	"strings"
-
-	"golang.org/x/tools/go/ssa"
 )
 
 // E-BOUND (DESIGN §2.8): bounds obligations, the compiler's bounds-check
@@ -103,482 +98,3 @@ func (l ILin) String() string {
 	return sb.String()
 }
 
-// Prover holds the per-function context.
-type Prover struct {
-	// PhiLower optionally supplies an inductive lower bound for a loop phi.
-	PhiLower func(*ssa.Phi) (int64, bool)
-	Fn    *ssa.Function
-	lo    map[string]int64 // known lower bounds of atoms
-	hi    map[string]int64 // known upper bounds
-	hasHi map[string]bool
-}
-
-func NewProver(fn *ssa.Function) *Prover {
-	return &Prover{Fn: fn, lo: map[string]int64{}, hi: map[string]int64{}, hasHi: map[string]bool{}}
-}
-
-func (p *Prover) atomOf(v ssa.Value) string {
-	if pth := AccessPath(v); pth != "" {
-		if _, isCall := v.(*ssa.Call); !isCall {
-			if _, isExt := v.(*ssa.Extract); !isExt {
-				if _, isPhi := v.(*ssa.Phi); !isPhi {
-					return pth
-				}
-			}
-		}
-	}
-	return "[" + v.Name() + "]"
-}
-
-func (p *Prover) setLo(a string, k int64) {
-	if cur, ok := p.lo[a]; !ok || k > cur {
-		p.lo[a] = k
-	}
-}
-
-func (p *Prover) setHi(a string, k int64) {
-	if !p.hasHi[a] || k < p.hi[a] {
-		p.hi[a] = k
-		p.hasHi[a] = true
-	}
-}
-
-func uintBits(t types.Type) int {
-	b, ok := t.Underlying().(*types.Basic)
-	if !ok {
-		return 0
-	}
-	switch b.Kind() {
-	case types.Uint8:
-		return 8
-	case types.Uint16:
-		return 16
-	case types.Uint32:
-		return 32
-	}
-	return 0
-}
-
-// Int linearises an integer SSA value.
-func (p *Prover) Int(v ssa.Value, d int) (ILin, bool) {
-	if d > 16 {
-		return ILin{}, false
-	}
-	if k, ok := ConstInt(v); ok {
-		if _, isC := StripConv(v).(*ssa.Const); isC {
-			l := newILin()
-			l.C = k
-			return l, true
-		}
-	}
-	switch x := v.(type) {
-	case *ssa.Convert:
-		// widening of unsigned / int conversions keep the value
-		if bits := uintBits(x.X.Type()); bits > 0 {
-			in, ok := p.Int(x.X, d+1)
-			if ok {
-				for a := range in.Coef {
-					if len(in.Coef) == 1 && in.Coef[a] == 1 && in.C == 0 {
-						p.setLo(a, 0)
-						p.setHi(a, int64(1)<<bits-1)
-					}
-				}
-				return in, true
-			}
-		}
-		src, ok1 := x.X.Type().Underlying().(*types.Basic)
-		dst, ok2 := x.Type().Underlying().(*types.Basic)
-		if ok1 && ok2 && src.Info()&types.IsInteger != 0 && dst.Info()&types.IsInteger != 0 {
-			// int <-> int64/uint64 etc.: treat as identity when not narrowing below 32 bits (overflow ignored for lengths)
-			if uintBits(x.Type()) == 0 || uintBits(x.Type()) >= 32 {
-				return p.Int(x.X, d+1)
-			}
-		}
-	case *ssa.BinOp:
-		switch x.Op {
-		case token.ADD, token.SUB:
-			a, ok1 := p.Int(x.X, d+1)
-			b, ok2 := p.Int(x.Y, d+1)
-			if ok1 && ok2 {
-				s := int64(1)
-				if x.Op == token.SUB {
-					s = -1
-				}
-				return a.add(b, s), true
-			}
-		case token.MUL:
-			a, ok1 := p.Int(x.X, d+1)
-			b, ok2 := p.Int(x.Y, d+1)
-			if ok1 && ok2 {
-				if len(b.Coef) == 0 {
-					return newILin().add(a, b.C), true
-				}
-				if len(a.Coef) == 0 {
-					return newILin().add(b, a.C), true
-				}
-			}
-		case token.AND:
-			// x & k with k >= 0: result in [0, k]
-			if k, ok := ConstInt(x.Y); ok && k >= 0 {
-				a := p.atomOf(x)
-				p.setLo(a, 0)
-				p.setHi(a, k)
-			}
-		case token.REM:
-			if k, ok := ConstInt(x.Y); ok && k > 0 && uintBits(x.Type()) > 0 {
-				a := p.atomOf(x)
-				p.setLo(a, 0)
-				p.setHi(a, k-1)
-			}
-		}
-	case *ssa.Call:
-		if b, ok := x.Call.Value.(*ssa.Builtin); ok {
-			switch b.Name() {
-			case "len":
-				return p.Len(x.Call.Args[0], d+1)
-			case "cap":
-				return p.Cap(x.Call.Args[0], d+1)
-			case "copy":
-				a := p.atomOf(x)
-				p.setLo(a, 0)
-				l := newILin()
-				l.Coef[a] = 1
-				return l, true
-			case "min":
-				// min(a, b) <= each; as atom with no facts
-			}
-		}
-		if CalleeName(&x.Call) == "golang.org/x/sys/unix.CmsgSpace" {
-			a := p.atomOf(x)
-			p.setLo(a, 0)
-			l := newILin()
-			l.Coef[a] = 1
-			return l, true
-		}
-	}
-	a := p.atomOf(v)
-	if bits := uintBits(v.Type()); bits > 0 {
-		p.setLo(a, 0)
-		p.setHi(a, int64(1)<<bits-1)
-	}
-	if ph, ok := v.(*ssa.Phi); ok && p.PhiLower != nil {
-		if lo, ok := p.PhiLower(ph); ok {
-			p.setLo(a, lo)
-		}
-	}
-	l := newILin()
-	l.Coef[a] = 1
-	return l, true
-}
-
-// Len linearises len(v).
-func (p *Prover) Len(v ssa.Value, d int) (ILin, bool) {
-	if d > 16 {
-		return ILin{}, false
-	}
-	switch x := v.(type) {
-	case *ssa.Slice:
-		if x.High != nil {
-			h, ok1 := p.Int(x.High, d+1)
-			l := newILin()
-			ok2 := true
-			if x.Low != nil {
-				l, ok2 = p.Int(x.Low, d+1)
-			}
-			if ok1 && ok2 {
-				return h.add(l, -1), true
-			}
-		} else {
-			base, ok1 := p.Len(x.X, d+1)
-			l := newILin()
-			ok2 := true
-			if x.Low != nil {
-				l, ok2 = p.Int(x.Low, d+1)
-			}
-			if ok1 && ok2 {
-				return base.add(l, -1), true
-			}
-		}
-	case *ssa.MakeSlice:
-		return p.Int(x.Len, d+1)
-	case *ssa.Const:
-		l := newILin()
-		if x.Value != nil {
-			if s, err := strconv.Unquote(x.Value.ExactString()); err == nil {
-				l.C = int64(len(s))
-			}
-		}
-		return l, true
-	case *ssa.ChangeType:
-		return p.Len(x.X, d+1)
-	case *ssa.Convert:
-		return p.Len(x.X, d+1)
-	}
-	// pointer to array / array
-	t := v.Type()
-	if pt, ok := t.Underlying().(*types.Pointer); ok {
-		t = pt.Elem()
-	}
-	if at, ok := t.Underlying().(*types.Array); ok {
-		l := newILin()
-		l.C = at.Len()
-		return l, true
-	}
-	a := "len(" + p.atomOf(v) + ")"
-	p.setLo(a, 0)
-	l := newILin()
-	l.Coef[a] = 1
-	return l, true
-}
-
-// Cap linearises cap(v).
-func (p *Prover) Cap(v ssa.Value, d int) (ILin, bool) {
-	if d > 16 {
-		return ILin{}, false
-	}
-	switch x := v.(type) {
-	case *ssa.Slice:
-		if x.Max == nil {
-			base, ok1 := p.Cap(x.X, d+1)
-			l := newILin()
-			ok2 := true
-			if x.Low != nil {
-				l, ok2 = p.Int(x.Low, d+1)
-			}
-			if ok1 && ok2 {
-				return base.add(l, -1), true
-			}
-		}
-	case *ssa.MakeSlice:
-		return p.Int(x.Cap, d+1)
-	case *ssa.ChangeType:
-		return p.Cap(x.X, d+1)
-	}
-	t := v.Type()
-	if pt, ok := t.Underlying().(*types.Pointer); ok {
-		t = pt.Elem()
-	}
-	if at, ok := t.Underlying().(*types.Array); ok {
-		l := newILin()
-		l.C = at.Len()
-		return l, true
-	}
-	a := "cap(" + p.atomOf(v) + ")"
-	p.setLo(a, 0)
-	l := newILin()
-	l.Coef[a] = 1
-	return l, true
-}
-
-// GuardFacts collects facts "L >= 0" from If edges that dominate block at,
-// and from the function's own earlier bounds operations that dominate at
-// (an index/slice operation that did not panic established its bound).
-func (p *Prover) GuardFacts(at ssa.Instruction) []ILin {
-	var facts []ILin
-	blk := at.Block()
-	for _, b := range p.Fn.Blocks {
-		n := len(b.Instrs)
-		if n == 0 {
-			continue
-		}
-		if iff, ok := b.Instrs[n-1].(*ssa.If); ok {
-			for si, s := range b.Succs {
-				if !(len(s.Preds) == 1 && (s == blk || s.Dominates(blk))) {
-					continue
-				}
-				for _, a := range Implied(iff.Cond, si == 0) {
-					bo, ok := a.V.(*ssa.BinOp)
-					if !ok {
-						continue
-					}
-					facts = append(facts, p.cmpFacts(bo, a.Holds)...)
-				}
-			}
-		}
-	}
-	// earlier successful bounds operations in dominating positions
-	for _, b := range p.Fn.Blocks {
-		if !(b == blk || b.Dominates(blk)) {
-			continue
-		}
-		for _, in := range b.Instrs {
-			if in == at {
-				break
-			}
-			if b == blk && indexOf(b, in) >= indexOf(b, at) {
-				break
-			}
-			switch x := in.(type) {
-			case *ssa.Call:
-				// E-SUM: n, oobn of a datagram read are within the buffers handed in
-				switch CalleeName(&x.Call) {
-				case "(*net.UDPConn).ReadMsgUDPAddrPort":
-					for _, pr := range [][2]int{{0, 1}, {1, 2}} {
-						for _, ref := range Referrers(x) {
-							if e, ok := ref.(*ssa.Extract); ok && e.Index == pr[0] {
-								n, _ := p.Int(e, 0)
-								if l, ok := p.Len(x.Call.Args[pr[1]], 0); ok {
-									facts = append(facts, l.add(n, -1), n)
-								}
-							}
-						}
-					}
-				case "(*net.UDPConn).ReadFrom":
-					for _, ref := range Referrers(x) {
-						if e, ok := ref.(*ssa.Extract); ok && e.Index == 0 {
-							n, _ := p.Int(e, 0)
-							if l, ok := p.Len(x.Call.Args[1], 0); ok {
-								facts = append(facts, l.add(n, -1), n)
-							}
-						}
-					}
-				}
-			case *ssa.IndexAddr:
-				if i, ok := p.Int(x.Index, 0); ok {
-					if l, ok := p.Len(x.X, 0); ok {
-						f := l.add(i, -1)
-						f.C -= 1
-						facts = append(facts, f) // len - i - 1 >= 0
-					}
-				}
-			case *ssa.Slice:
-				if _, isStr := x.X.Type().Underlying().(*types.Basic); isStr {
-					continue
-				}
-				// lo <= hi (or len) <= cap
-				var hiL ILin
-				var okH bool
-				if x.High != nil {
-					hiL, okH = p.Int(x.High, 0)
-					if c, ok := p.Cap(x.X, 0); ok && okH {
-						facts = append(facts, c.add(hiL, -1)) // cap - hi >= 0
-					}
-				} else {
-					hiL, okH = p.Len(x.X, 0)
-				}
-				if x.Low != nil && okH {
-					if lo, ok := p.Int(x.Low, 0); ok {
-						facts = append(facts, hiL.add(lo, -1)) // hi - lo >= 0
-						facts = append(facts, lo)              // lo >= 0
-					}
-				}
-			}
-		}
-	}
-	return facts
-}
-
-// cmpFacts turns (X op Y) == holds into facts L >= 0.
-func (p *Prover) cmpFacts(bo *ssa.BinOp, holds bool) []ILin {
-	op := bo.Op
-	switch op {
-	case token.EQL, token.NEQ, token.LSS, token.LEQ, token.GTR, token.GEQ:
-	default:
-		return nil
-	}
-	if !holds {
-		op = NegOp(op)
-	}
-	if _, isInt := bo.X.Type().Underlying().(*types.Basic); !isInt {
-		return nil
-	}
-	if b := bo.X.Type().Underlying().(*types.Basic); b.Info()&types.IsInteger == 0 {
-		return nil
-	}
-	x, ok1 := p.Int(bo.X, 0)
-	y, ok2 := p.Int(bo.Y, 0)
-	if !ok1 || !ok2 {
-		return nil
-	}
-	d := x.add(y, -1) // x - y
-	switch op {
-	case token.GEQ:
-		return []ILin{d}
-	case token.GTR:
-		d.C -= 1
-		return []ILin{d}
-	case token.LEQ:
-		return []ILin{newILin().add(d, -1)}
-	case token.LSS:
-		n := newILin().add(d, -1)
-		n.C -= 1
-		return []ILin{n}
-	case token.EQL:
-		return []ILin{d, newILin().add(d, -1)}
-	case token.NEQ:
-		// x != y with x - y >= 0 known gives x - y - 1 >= 0 (and symmetrically)
-		if m, ok := p.minOf(d); ok && m >= 0 {
-			n := d.clone()
-			n.C -= 1
-			return []ILin{n}
-		}
-		nd := newILin().add(d, -1)
-		if m, ok := p.minOf(nd); ok && m >= 0 {
-			nd.C -= 1
-			return []ILin{nd}
-		}
-	}
-	return nil
-}
-
-// Prove tries to show g >= 0 from facts and atom bounds.
-func (p *Prover) Prove(g ILin, facts []ILin) bool {
-	// intrinsic: cap(x) >= len(x)
-	for a := range g.Coef {
-		if strings.HasPrefix(a, "cap(") {
-			f := newILin()
-			f.Coef[a] = 1
-			f.Coef["len("+a[4:]] = -1
-			p.setLo("len("+a[4:], 0)
-			facts = append(facts, f)
-		}
-	}
-	return p.prove(g, facts, 0)
-}
-
-func (p *Prover) minOf(g ILin) (int64, bool) {
-	m := g.C
-	for a, c := range g.Coef {
-		if c > 0 {
-			lo, ok := p.lo[a]
-			if !ok {
-				return 0, false
-			}
-			m += c * lo
-		} else if c < 0 {
-			if !p.hasHi[a] {
-				return 0, false
-			}
-			m += c * p.hi[a]
-		}
-	}
-	return m, true
-}
-
-func (p *Prover) prove(g ILin, facts []ILin, depth int) bool {
-	if m, ok := p.minOf(g); ok && m >= 0 {
-		return true
-	}
-	if depth >= 4 {
-		return false
-	}
-	for _, f := range facts {
-		// useful only if it shares an atom with opposite need
-		share := false
-		for a, c := range f.Coef {
-			if gc, ok := g.Coef[a]; ok && (gc < 0) == (c < 0) {
-				share = true
-			}
-		}
-		if !share {
-			continue
-		}
-		for _, lam := range []int64{1, 2} {
-			rest := g.add(f, -lam)
-			if p.prove(rest, facts, depth+1) {
-				return true
-			}
-		}
-	}
-	return false
-}
